@@ -6,6 +6,13 @@ HERE = os.path.dirname(os.path.dirname(os.path.abspath(__file__)))
 
 # id -> (category, technique, text, note)
 CLAIMED = {
+ "C01": ("other", "table extraction + role-normalised affine normal forms of the forward/inverse maps + truncating-cast lint + symbolic folding of the typed conversion chains (ast)",
+         "Decides the structural necessary conditions of the conversion property for every dimension and input at once: the axis "
+         "table is a signed bijection; coordinate() is origin + s*voxel*voxel_size per axis, voxel() is the floor of an expression "
+         "that composes with it to the identity (s*s=1), coordinate_vector is its linear part; default origins follow the table; "
+         "no float->int truncation on an index path; every typed conversion pair has a branch through the coordinate system. "
+         "Not decided: floating-point exactness of the results (floor under rounding stress, 'exactly the physical dimensions').",
+         "Trusted: python ast parser; sa/fold.py, sa/algebra.py (Laurent polynomials, s*s=1). A pass is a proof of the real-arithmetic identities, not of float behaviour."),
  "C15": ("proof", "constant folding of the literal quadrature tables + exact-arithmetic identity check (ast)",
          "Every offered (dim, order) rule of gauss / gauss_reference_cell / reference_cell_corners is extracted from the "
          "source by constant folding and checked exhaustively in exact / 100-digit arithmetic: counts, positivity, total "
